@@ -35,6 +35,8 @@ class FindSegment(Contract):
         S.requires(ppoly_shape(S), 'shape')
         S.requires(sorted_bp(S), 'sorted')
         S.terms(0, n - 1)
+        if S.mode == 'call':
+            S.terms(S.result, S.result + 1)
         S.assigns()
         S.ensures(implies(n.eq(0), S.result.eq(0)), 'empty')
         S.ensures(implies(n > 0, seg_post(S, S.result, S.t)), 'piece')
@@ -56,6 +58,8 @@ class FindSegmentHinted(Contract):
         S.requires(ppoly_shape(S), 'shape')
         S.requires(sorted_bp(S), 'sorted')
         S.terms(0, n - 1)
+        if S.mode == 'call':
+            S.terms(S.result, S.result + 1)
         S.assigns(h.target)
         S.ensures(implies(n.eq(0), S.result.eq(0)), 'empty')
         S.ensures(implies(n > 0, seg_post(S, S.result, S.t)), 'piece')
@@ -218,10 +222,11 @@ class EvaluateSegmentHorner(Contract):
         S.requires(ppoly_shape(S), 'shape')
         S.requires(coeff_shape(S), 'coeff_rows')
         S.requires(table_inv(S), 'table_inv')
-        for p in cache_inv(S):
+        for p in cache_inv(S, inst=[S.sk(0)] + ([seg] if S.mode == 'verify' else [])):
             S.requires(p, 'cache_inv')
         S.requires((seg >= 0) & (seg < S.num_segments_), 'segment_in_range')
-        S.terms(seg)
+        if S.mode == 'verify':
+            S.terms(seg)
         S.assigns(S.v('derivative_coeffs_'), S.v('derivative_coeffs_ready_'), *[S.v(x) for x in TABLE_STATE])
         C = S.v('coefficients_')
         if not k.is_const():
@@ -233,5 +238,152 @@ class EvaluateSegmentHorner(Contract):
             else:
                 S.ensures(S.result.at(d, 0).eq(der(C, nc, seg, kk, S.t, d)), 'value_%d' % d)
         S.ensures(table_inv(S), 'table')
-        for p in cache_inv(S):
+        for p in cache_inv(S, inst=[S.sk(0)]):
+            S.ensures(p, 'cache')
+
+
+# ------------------------------------------------------------------------------------------------ (re)initialisation (C11, C16)
+PP_STATE = ('breakpoints_', 'coefficients_', 'derivative_coeffs_', 'derivative_factor_table_', 'derivative_factor_table_ready_',
+            'derivative_coeffs_ready_', 'num_segments_', 'num_coeffs_', 'is_initialized_')
+
+
+def accept_cond(S):
+    """the acceptance condition stated by property C16"""
+    bp = S.v('breakpoints')
+    C = S.v('coefficients')
+    ncf = S.num_coefficients
+    c = (bp.size() >= 2) & C.R.eq((bp.size() - 1) * ncf)
+    order = S.cfg.get('ORDER')
+    if order is not None:
+        c = c & (ncf > 0) & (ncf <= order)
+    return c
+
+
+def same_contents_vec(S, a, b):
+    return [a.size().eq(b.size()), S.forall(0, b.size(), lambda k: a.at(k).eq(b.at(k)))]
+
+
+def same_contents_mat(S, A, B, D):
+    return [A.R.eq(B.R), S.forall(0, B.R, lambda r: [A.at(r, c).eq(B.at(r, c)) for c in range(D)])]
+
+
+@register
+class InitializeInternal(Contract):
+    key = 'PPolyND.initializeInternal'
+
+    def spec(self, S):
+        D = S.cfg['DIM']
+        bp = S.v('breakpoints')
+        S.requires((bp.size() >= 0) & (bp.size() <= 1 << 24) & (S.v('coefficients').R >= 0) & (S.num_coefficients >= -(1 << 20)) & (S.num_coefficients <= 1 << 20), 'sizes_sane')
+        S.assigns(*[S.v(x) for x in PP_STATE])
+        acc = accept_cond(S)
+        # C16: rejected <=> uninitialised object with no segments
+        S.ensures(S.is_initialized_.eq(acc), 'accept_iff')
+        S.ensures(implies(mk_not(acc), S.num_segments_.eq(0) & S.num_coeffs_.eq(0) & S.v('breakpoints_').size().eq(0) & S.v('coefficients_').R.eq(0)), 'rejected_is_empty')
+        S.ensures(implies(acc, S.num_segments_.eq(bp.size() - 1) & S.num_coeffs_.eq(S.num_coefficients)), 'accepted_counts')
+        for j, p in enumerate(same_contents_vec(S, S.v('breakpoints_'), bp)):
+            S.ensures(_under(acc, p), 'accepted_breakpoints_%d' % j)
+        for j, p in enumerate(same_contents_mat(S, S.v('coefficients_'), S.v('coefficients'), D)):
+            S.ensures(_under(acc, p), 'accepted_coefficients_%d' % j)
+        # C11: no path keeps a ready flag (so no stale cache can be served)
+        S.ensures(mk_not(S.derivative_coeffs_ready_), 'coeff_cache_invalidated')
+        S.ensures(mk_not(S.derivative_factor_table_ready_), 'factor_table_invalidated')
+
+
+def _under(c, p):
+    if isinstance(p, Quant):
+        return Quant(p.lo, p.hi, (lambda k, p=p: implies(c, conj_q(p.body(k)))), inst=p.inst)
+    return implies(c, p)
+
+
+def conj_q(b):
+    if isinstance(b, (list, tuple)):
+        return conj([conj_q(x) for x in b])
+    return b
+
+
+# ------------------------------------------------------------------------------------------------ evaluation routes (C03)
+def sorted_trans(S):
+    """strictly increasing breakpoints, in transitive form (what uniqueness of the piece needs)"""
+    bp = S.v('breakpoints_')
+    n = S.num_segments_
+    return S.forall(0, n + 1, lambda a: S.forall(0, n + 1, lambda b: implies(a < b, bp.at(a) < bp.at(b))))
+
+
+def eval_requires(S):
+    S.requires(ppoly_shape(S), 'shape')
+    S.requires(S.num_segments_ > 0, 'initialised_nonempty')
+    S.requires(coeff_shape(S), 'coeff_rows')
+    S.requires(sorted_bp(S), 'sorted')
+    S.requires(sorted_trans(S), 'sorted_transitive')
+    S.requires(table_inv(S), 'table_inv')
+    for p in cache_inv(S, inst=[S.sk(0)]):
+        S.requires(p, 'cache_inv')
+
+
+CACHE_STATE = ('derivative_coeffs_', 'derivative_coeffs_ready_') + TABLE_STATE
+
+
+def value_is_piece_derivative(S, res, t, kk, label):
+    """for every piece r that the half-open lookup designates for t:  res == d^k/dt^k piece_r (t - b_r)"""
+    nc = nc_of(S)
+    if S.mode == 'verify' and kk < nc:
+        # calc step: the piece is unique (sortedness), so the skolem piece is the one the code used; proved as its own
+        # obligation and then available as an equation, which keeps the polynomial goal a congruence
+        S.ghost('exit', lambda G: G.lemma(implies((S.sk(0) >= 0) & (S.sk(0) < S.num_segments_) & seg_post(S, S.sk(0), t),
+                                                  S.sk(0).eq(S.local('segment_idx'))), 'piece_is_unique'))
+    D = S.cfg['DIM']
+    C = S.v('coefficients_')
+    bp = S.v('breakpoints_')
+    n = S.num_segments_
+    if kk >= nc:
+        for d in range(D):
+            S.ensures(res(d).eq(0), '%s_zero_beyond_degree_%d' % (label, d))
+        return
+    for d in range(D):
+        S.ensures(S.forall(0, n, lambda r: implies(seg_post(S, r, t), res(d).eq(der(C, nc, r, kk, t - bp.at(r), d)))), '%s_%d' % (label, d))
+
+
+def pinned_order(S, name='derivative_order'):
+    k = getattr(S, name)
+    if isinstance(k, E) and k.is_const():
+        return int(k.cval())
+    raise ValueError('%s must be pinned' % name)
+
+
+@register
+class Evaluate(Contract):
+    key = 'PPolyND.evaluate'
+    sig = ('double', 'int')
+
+    def spec(self, S):
+        kk = pinned_order(S)
+        eval_requires(S)
+        S.requires(E.const(kk) >= 0, 'order_nonnegative')
+        S.terms(0, S.num_segments_ - 1, S.num_segments_, S.sk(0) + 1)
+        S.assigns(*[S.v(x) for x in CACHE_STATE])
+        value_is_piece_derivative(S, lambda d: S.result.at(d, 0), S.t, kk, 'value')
+        S.ensures(table_inv(S), 'table')
+        for p in cache_inv(S, inst=[S.sk(0)]):
+            S.ensures(p, 'cache')
+
+
+@register
+class EvaluateHinted(Contract):
+    key = 'PPolyND.evaluate'
+    sig = ('double', 'int*', 'int')
+
+    def spec(self, S):
+        kk = pinned_order(S)
+        nc = nc_of(S)
+        h = S.v('last_idx_hint')
+        eval_requires(S)
+        S.requires(E.const(kk) >= 0, 'order_nonnegative')
+        S.terms(0, S.num_segments_ - 1, S.num_segments_, S.sk(0) + 1)
+        S.assigns(h.target, *[S.v(x) for x in CACHE_STATE])
+        value_is_piece_derivative(S, lambda d: S.result.at(d, 0), S.t, kk, 'value')
+        if kk < nc:
+            S.ensures(implies(mk_not(h.null), seg_post(S, h.target.rd(), S.t)), 'hint_is_piece_used')
+        S.ensures(table_inv(S), 'table')
+        for p in cache_inv(S, inst=[S.sk(0)]):
             S.ensures(p, 'cache')
